@@ -167,6 +167,7 @@ def check(ctx: Ctx):
     c03._guarded(ctx, "R03.1", c03.check_codec)
     c03._guarded(ctx, "R03.2", c03.check_candidates)
     c03._guarded(ctx, "R03.4", c03.check_naive)
+    c03._guarded(ctx, "R03.8", c03.check_ctor_spellings)  # "one-to-one" is what was asked for, however the option was spelled
     _run_rule(ctx, "check_single_instance", c02.check_single_instance)
     _run_rule(ctx, "check_chained_replacement", c04.check_chained_replacement)
     _run_rule(ctx, "check_relabel", c04.check_relabel)
